@@ -35,7 +35,8 @@ pub fn build_cases(workdir: &str, which: &str, seed: u64, n_gen: usize, max_byte
             let atoms = if lib { gen::LIB_ATOMS } else { gen::SV_ATOMS };
             let t = if i % 4 == 0 { gen::soup(&mut rng, atoms, 16) } else { let mut t = base.text.clone(); for _ in 0..rng.range(1, 2) { t = gen::mutate(&t, &mut rng, atoms); } t };
             let start = match (lib, rng.chance(1, 3)) { (false, false) => "sv", (false, true) => "svi", (true, false) => "lib", (true, true) => "libi" };
-            let cap = *rng.pick(&[Some(1024usize), Some(1024), Some(16), Some(1), None]);
+            // tiny memo capacities make the real parser exponential on anything but short inputs
+            let cap = if t.len() <= 48 { *rng.pick(&[Some(1024usize), Some(16), Some(1), None]) } else { *rng.pick(&[Some(1024usize), Some(1024), None]) };
             cases.push(Case { start: start.into(), cap, text: t, tag: "sv-gen".into() });
         }
     }
